@@ -299,7 +299,9 @@ where
         match self {
             Self::Value(lhs) => Self::Value(lhs + rhs),
             Self::Expr(lhs) => {
-                let token_stream = quote!(#lhs + #rhs);
+                // `lhs` is an arbitrary user expression (e.g. `A | B` or `A << 1`): parenthesize it,
+                // otherwise `+` would bind to its last operand only.
+                let token_stream = quote!((#lhs) + #rhs);
                 let expr = syn::parse2(token_stream)
                     .expect("Failed to parse token stream in ValueOrExpr::add");
                 Self::Expr(expr)
